@@ -272,9 +272,46 @@ def run_pointwise(ctx, chk, tables):
 
 # --------------------------------------------------------------------------- R01.4
 
+def constructor_inputs_untouched(ctx, chk, rule="R01.4"):
+    """The constructors sort COPIES: scores handed over as an array-like that np.asarray merely wraps (a pandas Series / column, a memoryview,
+    an object with __array__) share memory with the converted array although `np.asarray(x) is x` is false, so an in-place sort of the
+    converted array re-orders - or, for a read-only column, fails on - the caller's data.  Explored with array-like arguments whose conversion
+    is kept distinct from the argument."""
+    if getattr(chk, "_ctor_inputs_done", False):
+        return
+    chk._ctor_inputs_done = True
+    P = Sym("p_like", ("param", "array", "notnone", "arraylike"))
+    N = Sym("n_like", ("param", "array", "notnone", "arraylike"))
+    n = 0
+    for cls, kw in ((SCORES, {}), (GROUP, {"pos_groups": Sym("pg", ("param", "array", "notnone")), "neg_groups": Sym("ng", ("param", "array", "notnone"))})):
+        ci = ctx.db.cls(cls)
+        ctx.ev.mark_conversions = True
+        try:
+            outs = ctx.explore(lambda: ctx.ev.instantiate(ci, [P, N], dict(kw)), chk)
+        except Exception as e:  # noqa: BLE001
+            chk.unknown(rule, "%s(array-like inputs): %s" % (cls.split(".")[-1], str(e)[:120]))
+            continue
+        finally:
+            ctx.ev.mark_conversions = False
+        seen = set()
+        for o in outs:
+            n += 1
+            for e in o.events:
+                if e["kind"] == "inplace" and e.get("root") in (P, N) and (e.get("how"), e["root"].name) not in seen:
+                    seen.add((e.get("how"), e["root"].name))
+                    chk.violation(rule, cls + ".__init__", "%s:input-modified:%s" % (cls.split(".")[-1], e["root"].name),
+                                  "%s on the converted %s argument (storage of the caller's array-like)" % (e.get("how"), "pos" if e["root"] is P else "neg"),
+                                  "np.sort (a copy): a Series / column wrapped by np.asarray is the caller's data", "%s line %s" % (ctx.where(cls + ".__init__"), getattr(e.get("node"), "lineno", "?")))
+        if not seen:
+            chk.hold(rule, "%s:inputs-untouched" % cls.split(".")[-1], "no in-place operation reaches an array-like score argument", nontrivial=False)
+    if n < 2:
+        chk.unknown(rule, "only %d constructor paths explored with array-like inputs" % n)
+
+
 def constructor_sorted(ctx, chk):
     """Scores.__init__ / GroupScores.__init__ leave pos and neg ascending unless is_sorted."""
     flag_identity(ctx, chk)
+    constructor_inputs_untouched(ctx, chk)
     P = Sym("p_in", ("param", "array", "notnone", "rawdtype"))
     N = Sym("n_in", ("param", "array", "notnone", "rawdtype"))
     for cls, kw in ((SCORES, {}), (GROUP, {"pos_groups": Sym("pg", ("param", "array", "notnone")), "neg_groups": Sym("ng", ("param", "array", "notnone"))})):
